@@ -79,6 +79,7 @@ func podFieldWrites(p *Prog, fn *ssa.Function, d int, seen map[*ssa.Function]boo
 }
 
 func runC13(c *Ctx) {
+	runC13HandlersLast(c)
 	borrow(c, "O7", "C14", "O1", "addTaskIndex <-> deleteTaskIndex", "an undone operation must leave the job's cached counters as they were")
 
 	p, fx := c.P, c.Fx
@@ -799,4 +800,53 @@ func podTermWrites(p *Prog, fn *ssa.Function, d int, seen map[*ssa.Function]bool
 		}
 	}
 	return out
+}
+
+// runC13HandlersLast (O8): in every statement operation and in every undo, the plugins' allocate/deallocate
+// handlers are invoked after the job and node updates of that operation. The handlers read state that those
+// updates compute (the task's accepted resources are recomputed per node inside NodeInfo.AddTask/UpdateTask), so a
+// handler fired earlier charges the queues with the values of another node.
+func runC13HandlersLast(c *Ctx) {
+	p := c.P
+	isHandler := func(in ssa.Instruction) bool {
+		call, ok := in.(*ssa.Call)
+		if !ok || !isDynCall(call) {
+			return false
+		}
+		f := termOf(call.Common().Value).lastField()
+		return f == "AllocateFunc" || f == "DeallocateFunc"
+	}
+	isStateUpdate := func(in ssa.Instruction) bool {
+		cc, ok := in.(ssa.CallInstruction)
+		if !ok || calleeOf(cc) == nil {
+			return false
+		}
+		switch calleeOf(cc).Name() {
+		case "AddTask", "UpdateTask", "RemoveTask":
+			return strings.HasSuffix(funcPkgPath(calleeOf(cc)), "node_info")
+		case "UpdateTaskStatus":
+			return true
+		}
+		return false
+	}
+	n := 0
+	for _, nm := range []string{"Evict", "unevict", "Pipeline", "unpipeline", "Allocate", "unallocate"} {
+		fn := c.Anchor("O8", pkgFramework, "Statement", nm)
+		if fn == nil {
+			continue
+		}
+		for _, h := range p.deepFind(fn, isHandler, 1) {
+			n++
+			start := afterInstr(h.In)
+			start.Ctx = h.Chain
+			in, path, found := reachAvoiding([]cfgPos{start}, isStateUpdate, nil, nil)
+			what := ""
+			if found {
+				what = p.Pos(instrPos(in))
+			}
+			c.Check(!found, "O8", "MPT", funcKey(fn)+": plugin handlers fire after the job and node were updated", instrPos(h.In), "no job/node update follows the handler invocation",
+				"a plugin handler is invoked before the node/job update at "+what+" ("+pathStr(path)+"): the handler reads the task's accepted resources, which that update recomputes for the node — after an undone relocation of a gpu-memory task between nodes with different GPU sizes the queue stays charged with the other node's value")
+		}
+	}
+	c.Floor("O8", "MPT handler invocations", n, 6)
 }
